@@ -98,6 +98,7 @@ STRATEGY = {   # strategy -> (children, relations per owner, constraints)
     'none': ('', '', ''), 'id': ('', '', ''), 'edit': ('', '', ''),
     'revkids': ('rev', '', ''), 'rotkids': ('rot', '', ''), 'revrels': ('', 'rev', ''),
     'revctcs': ('', '', 'rev'), 'revall': ('rev', 'rev', 'rev'),
+    'casectc': ('', '', ''),     # constraints spelled with the letter case of every name swapped
 }
 
 
@@ -128,5 +129,22 @@ def build_from_model(m, naming, strategy='none'):
         for r in _perm(rels, rp):
             kids = [objs[k] for k in _perm(r['kids'], kp)]
             objs[on].add_relation(Relation(objs[on], kids, r['lo'], r['hi']))
-    ctcs = [Constraint(c['name'], AST(build_node(c['ast'], naming))) for c in _perm(m['ctcs'], cp)]
+    nm_ctc = naming
+    if strategy == 'casectc':
+        nm_ctc = CaseSwapped(naming)
+    ctcs = [Constraint(c['name'], AST(build_node(c['ast'], nm_ctc))) for c in _perm(m['ctcs'], cp)]
     return FeatureModel(objs[m['root']], ctcs), objs
+
+
+class CaseSwapped:
+    """A view of a naming that spells every name with swapped letter case (and lets the
+    projection map the variant back to the same abstract name)."""
+
+    def __init__(self, naming):
+        self.naming = naming
+
+    def conc(self, a):
+        c = self.naming.conc(a)
+        v = c.swapcase()
+        self.naming.rev.setdefault(v, a)
+        return v
